@@ -24,10 +24,24 @@ use crate::{dbutil, watch};
 const SLICES: u64 = 16;
 
 pub fn plan(tier: &str) -> u64 {
-    match tier {
-        // base images x slices (each slice takes the offsets congruent to it modulo SLICES)
-        "quick" => 2 * SLICES,
-        _ => 12 * SLICES,
+    // base images x slices (each slice takes the offsets congruent to it modulo SLICES)
+    (n_small_bases(tier) + n_wal_bases(tier)) * SLICES
+}
+
+fn n_small_bases(tier: &str) -> u64 {
+    if tier == "quick" {
+        2
+    } else {
+        12
+    }
+}
+
+/// bases whose write-ahead log spans several 32 KiB blocks (records stored as fragments)
+fn n_wal_bases(tier: &str) -> u64 {
+    if tier == "quick" {
+        1
+    } else {
+        6
     }
 }
 
@@ -226,6 +240,83 @@ fn build_base(rng: &mut Rng, idx: u64) -> Result<Base, String> {
     })
 }
 
+/// A database whose only content is one write-ahead log of two or three 32 KiB blocks: values of
+/// several hundred bytes, so that some batches straddle a block boundary and are stored as
+/// First/Middle/Last fragments.
+fn build_wal_base(rng: &mut Rng) -> Result<Base, String> {
+    crate::director::director().reset(rng.next_u64());
+    let cfg = Config { memtable: 4 << 20, file: 1 << 20, block: 4096, reuse: true };
+    let fs = SimFs::from_image(&dbutil::root_image());
+    fs.record_journal(true);
+    let mut sess = Session::new(fs.clone(), cfg);
+    sess.record_acks = true;
+    sess.open()?;
+    let pool = crate::gen::key_pool(rng, KeyFamily::Ascii, 40);
+    let target = rng.range(40_000, 90_000) as usize;
+    let mut written = 0usize;
+    let mut counter = 0u64;
+    let mut universe = BTreeSet::new();
+    while written < target {
+        watch::tick();
+        let mut ops: Vec<WriteOp> = vec![];
+        let roll = rng.below(100);
+        let n = if roll < 70 { 1 } else if roll < 85 { 0 } else { rng.range(2, 6) as usize };
+        if n == 0 {
+            ops.push((rng.pick(&pool).clone(), None));
+        }
+        for _ in 0..n {
+            counter += 1;
+            let len = if n == 1 { rng.range(300, 1600) } else { rng.range(100, 700) } as usize;
+            let k = rng.pick(&pool).clone();
+            ops.push((k, Some(crate::gen::tagged_value(rng, &format!("w{counter}:"), len))));
+        }
+        for (k, v) in &ops {
+            universe.insert(k.clone());
+            written += k.len() + v.as_ref().map_or(0, |v| v.len()) + 12;
+        }
+        sess.write(ops)?;
+    }
+    sess.close();
+    let exec = Execution {
+        journal: fs.take_journal(),
+        acks: std::mem::take(&mut sess.acks),
+        opens: vec![],
+        universe: universe.clone(),
+        final_cfg: cfg,
+        description: json!({}),
+        degenerate: None,
+    };
+    let fs_image = fs.image();
+    let mut truth = Map::new();
+    let mut ever: BTreeMap<Vec<u8>, BTreeSet<Vec<u8>>> = BTreeMap::new();
+    let mut wal_batches = vec![];
+    for a in &exec.acks {
+        if a.ok {
+            apply_to_map(&mut truth, &a.ops);
+            wal_batches.push(a.ops.clone());
+            for (k, v) in &a.ops {
+                if let Some(v) = v {
+                    ever.entry(k.clone()).or_default().insert(v.clone());
+                }
+            }
+        }
+    }
+    let clean = read_state(&fs_image, cfg)?;
+    if clean != truth {
+        return Err("multi-block WAL base does not read back as the acknowledged state (see C01/C02)".into());
+    }
+    let tables: Vec<&PathBuf> = fs_image.files.keys().filter(|p| classify(p) == PathClass::Table).collect();
+    if !tables.is_empty() {
+        return Err("multi-block WAL base unexpectedly has table files".into());
+    }
+    let structure = build_structure(&exec, &fs_image);
+    let wal_len: usize = fs_image.files.iter().filter(|(p, _)| classify(p) == PathClass::Wal).map(|(_, b)| b.len()).sum();
+    let fragments: usize = structure.iter().filter(|(p, _)| classify(p) == PathClass::Wal).map(|(_, spans)| spans.iter().filter(|s| s.2 == "log-header-type").count()).sum();
+    let description = json!({"execution": "one write-ahead log spanning several 32 KiB blocks, nothing flushed", "files": fs_image.listing(),
+        "wal_batches": wal_batches.len(), "wal_bytes": wal_len, "wal_fragments": fragments, "keys": truth.len()});
+    Ok(Base { image: fs_image, truth, tables_only: Map::new(), wal_batches, ever, universe, cfg, structure, owner: BTreeMap::new(), description })
+}
+
 fn structure_at(base: &Base, path: &PathBuf, offset: usize) -> &'static str {
     if let Some(spans) = base.structure.get(path) {
         for (s, e, label) in spans {
@@ -257,7 +348,25 @@ fn is_subset_state(base: &Base, state: &Map) -> bool {
         }
         false
     } else {
-        // too many batches to enumerate: per-key necessary condition only
+        // one damaged byte makes the reader skip a record, the rest of a block or everything
+        // after a point: a contiguous run of batches
+        let mut prefix = base.tables_only.clone();
+        for i in 0..=n {
+            for j in i..=n {
+                let mut m = prefix.clone();
+                for b in &base.wal_batches[j..] {
+                    apply_to_map(&mut m, b);
+                }
+                if m == *state {
+                    return true;
+                }
+            }
+            watch::tick();
+            if i < n {
+                apply_to_map(&mut prefix, &base.wal_batches[i]);
+            }
+        }
+        // any other subset cannot be enumerated: per-key necessary condition only
         state.iter().all(|(k, v)| base.tables_only.get(k) == Some(v) || base.wal_batches.iter().any(|b| b.iter().any(|(bk, bv)| bk == k && bv.as_ref() == Some(v))))
     }
 }
@@ -426,7 +535,9 @@ pub fn run_case(tier: &str, seed: u64, idx: u64) -> CaseOut {
     let slice = idx % SLICES;
     let mut rng = Rng::new(mix(&[seed, base_idx], "c15-base"));
     watch::set_case_limit(std::time::Duration::from_secs(3000));
-    let base = match build_base(&mut rng, base_idx) {
+    let wal_family = base_idx >= n_small_bases(tier);
+    let built = if wal_family { build_wal_base(&mut rng) } else { build_base(&mut rng, base_idx) };
+    let base = match built {
         Ok(b) => b,
         Err(e) => {
             out.inconclusive(e);
@@ -448,8 +559,17 @@ pub fn run_case(tier: &str, seed: u64, idx: u64) -> CaseOut {
         let class = classify(path);
         let len = base.image.files[path].len();
         let mut mutations: Vec<(usize, String, Box<dyn Fn(&mut Vec<u8>)>)> = vec![];
-        for offset in (0..len).filter(|o| (*o as u64) % SLICES == slice) {
-            let kinds: Vec<u8> = if thorough { (0..10).collect() } else { vec![rng.below(8) as u8, 8 + (offset as u8 / 16) % 2] };
+        // multi-block WAL family: every byte of every fragment header with every mutation kind, the
+        // first payload bytes of each fragment and a sample of the rest
+        let header_or_sampled = |o: usize| -> (bool, bool) {
+            let st = structure_at(&base, path, o);
+            let header = st.starts_with("log-header");
+            (header, header || o % 61 == 0 || (o >= 1 && structure_at(&base, path, o - 1).starts_with("log-header")))
+        };
+        for (n, offset) in (0..len).filter(|o| !wal_family || header_or_sampled(*o).1).enumerate().filter(|(n, o)| if wal_family { (*n as u64) % SLICES == slice } else { (*o as u64) % SLICES == slice }).map(|(n, o)| (n, o)) {
+            let _ = n;
+            let all_kinds = thorough || (wal_family && class == PathClass::Wal && header_or_sampled(offset).0);
+            let kinds: Vec<u8> = if all_kinds { (0..10).collect() } else { vec![rng.below(8) as u8, 8 + (offset as u8 / 16) % 2] };
             for kind in kinds {
                 let r = rng.below(255) as u8 + 1;
                 match kind {
@@ -495,7 +615,10 @@ pub fn run_case(tier: &str, seed: u64, idx: u64) -> CaseOut {
         }
     }
     out.add("mutated_images", images);
-    out.sample = Some(json!({"family": "byte-mutation-sweep", "base": base.description, "slice": format!("offsets = {slice} mod {SLICES}"),
+    if wal_family {
+        out.add("multi_block_wal_images", images);
+    }
+    out.sample = Some(json!({"family": if wal_family { "byte-mutation-sweep/multi-block-wal" } else { "byte-mutation-sweep" }, "base": base.description, "slice": format!("offsets = {slice} mod {SLICES}"),
         "mutations_per_offset": if thorough { "8 bit flips + zero + random xor; every truncation length of tables" } else { "1 random bit flip + zero or random xor; one random truncation per table" },
         "images": images}));
     out
